@@ -1826,7 +1826,7 @@ class NLDFAuxiliaryPlan(ABC):
             functional derivatives with respect to the nonlocal
             density integrals.
         """
-        vfeat[:] *= self.nspin
+        vfeat = vfeat * self.nspin
         if vf is None:
             vf = self.zero_coefs_full(vfeat.shape[1])
         if self.coef_order == "qg":
